@@ -216,7 +216,7 @@ pub fn record_and_replay(prog: &Prog, k: usize, seed: u64, iters: usize, acc: &m
 
 pub fn run(r: &mut Report) {
     let fams: Vec<Family> = gen::ALL_FAMILIES.to_vec();
-    let per_family = if r.quick() { 12 } else { 100 };
+    let per_family = if r.quick() { 25 } else { 100 };
     let iters = if r.quick() { 40 } else { 200 };
     let mut rng = Rng::new(r.seed ^ 0xC01);
     let mut items: Vec<(String, Prog, usize, u64)> = vec![];
